@@ -28,7 +28,7 @@ func init() {
 	})
 	p.Run = func(c *Ctx) {
 		runScale(c, sub, "C08")
-		cfg := gen.Cfg{ExprDepth: 2, BodyLen: 4, Nest: 5, Calls: true, If: true, For: true, Set: true, SetCap: true, FilterSec: true, Macros: true, Blocks: true, HostileText: true, BigText: true}
+		cfg := gen.Cfg{ExprDepth: 2, BodyLen: 4, Nest: 5, Calls: true, If: true, For: true, Set: true, SetCap: true, FilterSec: true, Macros: true, Blocks: true, HostileText: true, BigText: true, RecMacro: true}
 		sub.Rapid(c, c.Share(c.Pick(16000, 800000)), progGen(cfg))
 		// captures across templates of one execution: block bodies wrapped in
 		// filter sections (different filter lists per level) rendered through
